@@ -1,4 +1,5 @@
 import AvroModel.Impl.Schema
+import AvroModel.Impl.Serde
 /-
 `serde_avro_derive` (`BuildSchema`, `SchemaBuilder`) and what `#[derive(BuildSchema)]` expands to
 (`serde_avro_derive_macros/src/build_schema/{mod,field_types_and_instantiations,type_lookup}.rs`).
@@ -429,5 +430,92 @@ end
 /-- `T::schema_mut()`: a fresh builder, `T::append_schema`, `SchemaMut::from_nodes`. -/
 def schemaMut (P : Prog) (hash : Key → String) (fuel : Nat) (t : Ty) : Option SchemaMut :=
   (appendSchema P hash fuel t {}).map fun (_, s) => s.nodes
+
+/-! ### What serde's derived `Serialize` presents for a value of a type
+
+This is `serde_derive`'s behaviour (a parameter of the verification, validated on every generated
+value by the correspondence check): the set of serializer-call trees a value of type `t` makes.
+Byte vectors and arrays are serialized through `serde_bytes`; maps have string keys; a variant of
+an enum that maps to a union carries its `#[serde(rename)]`. -/
+
+def intTyOf : Ty → Option IntTy
+  | .i8 => some .i8 | .i16 => some .i16 | .i32 => some .i32 | .i64 => some .i64
+  | .u16 => some .u16 | .u32 => some .u32 | .u64 => some .u64 | .usize => some .u64
+  | _ => none
+
+/-- Unsigned integers must fit the Avro type they map to (`u32`/`u64`/`usize` → `long`). -/
+def fitsAvro (t : Ty) (v : Int) : Bool :=
+  match t with
+  | .u64 | .usize => decide (v < (2 : Int) ^ 63)
+  | _ => true
+
+def isStrKey : SV → Bool | .str _ => true | _ => false
+
+def hasShape (P : Prog) : Nat → Ty → SV → Bool
+  | 0, _, _ => false
+  | fuel + 1, t, sv =>
+    match t with
+    | .unit => (match sv with | .unit => true | _ => false)
+    | .bool => (match sv with | .bool _ => true | _ => false)
+    | .i8 | .i16 | .i32 | .i64 | .u16 | .u32 | .u64 | .usize =>
+      (match sv with
+        | .int ty v => intTyOf t = some ty && ty.inRange v && fitsAvro t v
+        | _ => false)
+    | .f32 => (match sv with | .f32 _ => true | _ => false)
+    | .f64 => (match sv with | .f64 _ => true | _ => false)
+    | .string | .str => (match sv with | .str _ => true | _ => false)
+    | .byteVec | .byteSlice => (match sv with | .bytes _ => true | _ => false)
+    | .byteArray n => (match sv with | .bytes b => b.length = n | _ => false)
+    | .vec t =>
+      (match sv with
+        | .seq (some len) elems => len = elems.length && elems.all fun e => hasShape P fuel t e
+        | _ => false)
+    | .option t =>
+      (match sv with
+        | .none => true
+        | .some x => hasShape P fuel t x
+        | _ => false)
+    | .hashMap t | .btreeMap t =>
+      (match sv with
+        | .map (some len) entries =>
+          len = entries.length && entries.all fun (k, v) => isStrKey k && hasShape P fuel t v
+        | _ => false)
+    | .ptr t => hasShape P fuel t sv
+    | .param _ => false
+    | .named id args =>
+      match P[id]? with
+      | none => false
+      | some d =>
+        match d.body with
+        | .record fields =>
+          (match sv with
+            | .struct name fs =>
+              name = d.ident && fs.length = fields.length &&
+                (fields.zip fs).all fun (f, (n, v)) => n = f.name && hasShape P fuel (subst args f.ty) v
+            | _ => false)
+        | .newtype f =>
+          (match sv with
+            | .newtypeStruct name x => name = d.ident && hasShape P fuel (subst args f.ty) x
+            | _ => false)
+        | .unitEnum vs =>
+          (match sv with
+            | .unitVariant name idx v => name = d.ident && vs[idx]? = some v
+            | _ => false)
+        | .union vs =>
+          (match sv with
+            | .unitVariant name idx v =>
+              name = d.ident &&
+                (match vs[idx]? with
+                  | some var => var.field.isNone && var.serdeName = v
+                  | none => false)
+            | .newtypeVariant name idx v x =>
+              name = d.ident &&
+                (match vs[idx]? with
+                  | some var =>
+                    (match var.field with
+                      | some f => var.serdeName = v && hasShape P fuel (subst args f.ty) x
+                      | none => false)
+                  | none => false)
+            | _ => false)
 
 end Avro.Impl.Derive
